@@ -99,6 +99,19 @@ pub struct Proc {
     pub snapshot: u64,
     pub stdout: Vec<u8>,
     pub waiters: Vec<Waker>,
+    /// the shell was started with `-e` (stop at the first failing command)
+    pub errexit: bool,
+    /// stdout is a pipe held by zinoma (not drained by `output()`): what the script prints goes
+    /// through a 64 KiB kernel buffer, and the script cannot end while more than that is unread
+    pub pipe: Option<Pipe>,
+}
+
+pub const PIPE_CAPACITY: usize = 65536;
+
+pub struct Pipe {
+    pub data: Vec<u8>,
+    pub read: usize,
+    pub waiters: Vec<Waker>,
 }
 
 #[derive(Default)]
@@ -123,6 +136,12 @@ impl Procs {
         }
         if self.frozen && matches!(p.kind, ProcKind::Build | ProcKind::Service) {
             return false;
+        }
+        if let Some(pipe) = &p.pipe {
+            // blocked in write(2): the reader has to drain the pipe first
+            if pipe.data.len() - pipe.read > PIPE_CAPACITY {
+                return false;
+            }
         }
         if let Some(g) = &p.spec.gate {
             if let Some(ids) = rt.plan.gates.get(g) {
@@ -154,7 +173,7 @@ impl Procs {
 }
 
 /// Called by the `async-process` shim. Returns the pid, or the error to hand to zinoma.
-pub fn spawn(script: &str, cwd: PathBuf) -> std::io::Result<usize> {
+pub fn spawn(script: &str, cwd: PathBuf, shell_flags: &str, piped_stdout: bool) -> std::io::Result<usize> {
     with(|rt| {
         let spec = parse_script(script);
         let kind = if spec.cmd_key.is_some() {
@@ -205,7 +224,22 @@ pub fn spawn(script: &str, cwd: PathBuf) -> std::io::Result<usize> {
             snapshot,
             stdout: vec![],
             waiters: vec![],
+            errexit: shell_flags.starts_with('-') && shell_flags.contains('e'),
+            pipe: None,
         });
+        if piped_stdout {
+            // what the script is going to print is fixed when it starts
+            let mut data = vec![];
+            if let Some(key) = &rt.procs.list[pid].spec.cmd_key {
+                let cwd = rt.procs.list[pid].cwd.clone();
+                let v = crate::vfs::lookup_var(std::path::Path::new(&rt.plan.vars_dir), std::path::Path::new(&rt.plan.root), &cwd, key);
+                if !v.starts_with(b"!fail") {
+                    data = v;
+                }
+            }
+            rt.evv("proc-pipe", &format!("p{} bytes={}", pid, data.len()));
+            rt.procs.list[pid].pipe = Some(Pipe { data, read: 0, waiters: vec![] });
+        }
         rt.add_event(EvKind::ProcExit(pid));
         Ok(pid)
     })
@@ -220,12 +254,23 @@ pub fn fire_exit(pid: usize) {
         };
         let mut exit = spec.exit;
         let mut sig = spec.sig;
+        let mut truth: Option<i32> = None;
         if let Some(k) = rt.fault(&format!("proc.exit:{}", spec.id)) {
             if let Some(v) = k.strip_prefix("exit=") {
                 exit = v.parse().unwrap_or(1);
                 sig = 0;
             } else if let Some(v) = k.strip_prefix("sig=") {
                 sig = v.parse().unwrap_or(9);
+            } else if let Some(v) = k.strip_prefix("midfail=") {
+                // a command in the middle of the script fails. Under `sh -e` the shell stops
+                // there with that status; without `-e` it carries on and the script ends with the
+                // status of its last command (0) - the script failed all the same
+                let n: i32 = v.parse().unwrap_or(1);
+                truth = Some(n << 8);
+                if rt.procs.list[pid].errexit {
+                    exit = n;
+                    sig = 0;
+                }
             }
         }
         let _ = nth;
@@ -271,9 +316,16 @@ pub fn fire_exit(pid: usize) {
         *rt.procs.exit_counts.entry(spec.id.clone()).or_insert(0) += 1;
         let p = &mut rt.procs.list[pid];
         p.state = PState::Exited(raw);
-        p.stdout = stdout;
-        let waiters: Vec<Waker> = p.waiters.drain(..).collect();
-        rt.ev("proc-exit", &format!("p{} id={} raw={} wrote={}", pid, spec.id, raw, wrote.join(",")));
+        p.stdout = if p.pipe.is_some() { vec![] } else { stdout };
+        let mut waiters: Vec<Waker> = p.waiters.drain(..).collect();
+        if let Some(pipe) = p.pipe.as_mut() {
+            waiters.extend(pipe.waiters.drain(..));
+        }
+        let truth_note = match truth {
+            Some(t) if t != raw => format!(" truth={}", t),
+            _ => String::new(),
+        };
+        rt.ev("proc-exit", &format!("p{} id={} raw={} wrote={}{}", pid, spec.id, raw, wrote.join(","), truth_note));
         for w in waiters {
             w.wake();
         }
@@ -287,7 +339,10 @@ pub fn kill(pid: usize) -> std::io::Result<()> {
         match p.state {
             PState::Running => {
                 p.state = PState::Killed;
-                let waiters: Vec<Waker> = p.waiters.drain(..).collect();
+                let mut waiters: Vec<Waker> = p.waiters.drain(..).collect();
+                if let Some(pipe) = p.pipe.as_mut() {
+                    waiters.extend(pipe.waiters.drain(..));
+                }
                 rt.remove_proc_exit_event(pid);
                 rt.ev("proc-kill", &format!("p{} id={}", pid, id));
                 for w in waiters {
@@ -327,6 +382,31 @@ pub fn poll_status(pid: usize, waker: &Waker) -> Option<i32> {
             rt.ev("proc-reap", &format!("p{} id={}", pid, id));
         }
         Some(raw)
+    })
+}
+
+/// Read end of a piped stdout. Ok(0) = end of file (the script is gone and everything was read).
+pub fn pipe_read(pid: usize, buf: &mut [u8], waker: &Waker) -> std::task::Poll<std::io::Result<usize>> {
+    use std::task::Poll;
+    with(|rt| {
+        let running = rt.procs.list[pid].state == PState::Running;
+        let pipe = match rt.procs.list[pid].pipe.as_mut() {
+            Some(p) => p,
+            None => return Poll::Ready(Ok(0)),
+        };
+        let left = pipe.data.len() - pipe.read;
+        if left > 0 {
+            let n = left.min(buf.len()).min(PIPE_CAPACITY);
+            buf[..n].copy_from_slice(&pipe.data[pipe.read..pipe.read + n]);
+            pipe.read += n;
+            return Poll::Ready(Ok(n));
+        }
+        if running {
+            pipe.waiters.push(waker.clone());
+            rt.note_parked(&format!("pipe-read p{}", pid));
+            return Poll::Pending;
+        }
+        Poll::Ready(Ok(0))
     })
 }
 
